@@ -292,13 +292,13 @@ def run_check(ctx):
     # transaction, so one TLC run serves the design-level check and the spec -> code direction.
     if quick:
         design, strict = [], []
-        emits = [[("MCEvmValue_emit_ops.cfg", None), ("MCEvmValue_emit_f5.cfg", None)], [("MCEvmValue_emit_frames_q.cfg", 3000)]]
+        emits = [[("MCEvmValue_emit_ops.cfg", 5000), ("MCEvmValue_emit_f5.cfg", None)], [("MCEvmValue_emit_frames_q.cfg", 4000)]]
         chunks, depth = [(600, ctx.seed)], 4
     else:
         design = ["MCEvmValue_frames_small.cfg", "MCEvmValue_frames_big.cfg", "MCEvmValue_ops_small.cfg", "MCEvmValue_gas_small.cfg"]
         strict = [("MCEvmValue_strict.cfg", "AllOrNothingStrict"), ("MCEvmValue_strict_stack.cfg", "StackDisciplineStrict")]
-        emits = [[("MCEvmValue_emit_ops_big.cfg", 30000)],
-                 [("MCEvmValue_emit_frames.cfg", None), ("MCEvmValue_emit_f5.cfg", None), ("MCEvmValue_emit_multi.cfg", None)]]
+        emits = [[("MCEvmValue_emit_ops_big.cfg", 40000), ("MCEvmValue_emit_ops.cfg", None)],
+                 [("MCEvmValue_emit_frames.cfg", 60000), ("MCEvmValue_emit_f5.cfg", None), ("MCEvmValue_emit_multi.cfg", 20000)]]
         chunks, depth = [(2500, ctx.seed * 1000 + i) for i in range(3)], 5
 
     def emit_chain(plans):
